@@ -346,6 +346,11 @@ func Scalars() []V {
 		out = append(out, Num(k, "0"), Num(k, "1"), Num(k, "7"))
 	}
 	out = append(out, Num("int", "-3"), Num("int8", "-1"), Num("float64", "0.5"), Num("float32", "0.25"), Num("float64", "-0"))
+	// boundary values (round 16): extremes of the widths, values beyond 2^53, floats that print with an
+	// exponent, the smallest denormals - all non-zero, hence truthy.
+	out = append(out, Num("int64", "9223372036854775807"), Num("int64", "-9223372036854775808"), Num("uint64", "18446744073709551615"),
+		Num("int8", "-128"), Num("uint8", "255"), Num("int64", "9007199254740993"), Num("float64", "1e21"), Num("float64", "1e-7"),
+		Num("float64", "5e-324"), Num("float32", "1e-45"), Num("float64", "-1e-300"), Num("int32", "-2147483648"))
 	return out
 }
 
